@@ -559,7 +559,10 @@ def main_check(mod):
             cls = mod.known_class(l, ob, mn) if hasattr(mod, "known_class") else None
             return not (cls and any(k["id"] == cls for k in known_for))
         shrinker = getattr(mod, "shrink", None)
-        small = shrinker(lines[i], still_bad) if shrinker else shrink(pid, lines[i], binp, still_bad)
+        if os.environ.get("VERIF_NO_SHRINK"):
+            small = lines[i]        # batch validation runs: report the failing case as generated
+        else:
+            small = shrinker(lines[i], still_bad) if shrinker else shrink(pid, lines[i], binp, still_bad)
         rw, ob, mi, mo, mn = one(small)
         rp = write_replay(pid, {"kind": "case", "case": small, "original_case": lines[i],
                                 "impl_result": ob, "model_result": mo, "model_input": mi,
